@@ -828,16 +828,11 @@ class TextXVisitor(RRELVisitor):
             if name == "split" and len(value) == 0:
                 raise TextXError("param split requires a non-empty string parameter")
             if name == "ws" and "\\" in value:
-                new_value = ""
-                if "\\n" in value:
-                    new_value += "\n"
-                if "\\r" in value:
-                    new_value += "\r"
-                if "\\t" in value:
-                    new_value += "\t"
-                if " " in value:
-                    new_value += " "
-                value = new_value
+                # The escapes stand for the characters; every other character
+                # of the value is a whitespace of the rule as written.
+                value = (
+                    value.replace("\\n", "\n").replace("\\r", "\r").replace("\\t", "\t")
+                )
 
             params[name] = value
 
